@@ -175,6 +175,10 @@ impl<Read: ReadHalf> ReadConnection<Read> {
     //
     // A message that has arrived completely is handed out even if the beginning of the next one is
     // already there: what follows it stays in the buffer until the rest arrives.
+    //
+    // The buffer only grows for a single message that does not fit into it: when it is full, the
+    // space of the messages that were already handed out is used again first. So its size is bound
+    // by the largest message received, not by how much a peer pipelines.
     async fn read_from_socket(&mut self) -> Result<()> {
         self.skip_padding();
         if self.buffer[self.msg_pos..self.read_pos].contains(&b'\0') {
@@ -185,20 +189,26 @@ impl<Read: ReadHalf> ReadConnection<Read> {
         // and the rest of it is appended.
 
         loop {
+            if self.read_pos == self.buffer.len() {
+                if self.msg_pos > 0 {
+                    // Move the beginning of the pending message to the front.
+                    self.buffer.copy_within(self.msg_pos..self.read_pos, 0);
+                    self.read_pos -= self.msg_pos;
+                    self.msg_pos = 0;
+                } else if self.buffer.len() >= MAX_BUFFER_SIZE {
+                    // A single message that does not fit within the limit.
+                    return Err(crate::Error::BufferOverflow);
+                } else {
+                    self.buffer.extend(core::iter::repeat_n(0, BUFFER_SIZE));
+                }
+            }
+
             let bytes_read = self.socket.read(&mut self.buffer[self.read_pos..]).await?;
             if bytes_read == 0 {
                 return Err(crate::Error::UnexpectedEof);
             }
             let new_data = self.read_pos;
             self.read_pos += bytes_read;
-
-            if self.read_pos == self.buffer.len() {
-                if self.read_pos >= MAX_BUFFER_SIZE {
-                    return Err(crate::Error::BufferOverflow);
-                }
-
-                self.buffer.extend(core::iter::repeat_n(0, BUFFER_SIZE));
-            }
 
             self.skip_padding();
             if self.buffer[new_data.max(self.msg_pos)..self.read_pos].contains(&b'\0') {
